@@ -1,24 +1,161 @@
 (* C14 — variant for exit_returns (both repairs applied): once an exit is pending and the loop
-   thread is past a poll return, every step of the loop thread strictly decreases [rank], and a
-   step of any other thread increases it by at most 2 (an enqueue).  Together with
-   exit_poll_never_sleeps / loop_never_stuck (ProofsExit.v) and the finiteness of the scripts this
-   bounds the number of loop-thread steps until muggle_evloop_run has returned (rank 1 = AFin). *)
+   thread is on its way to an exit test that leaves (it is handling the wake-up whose promotion
+   turns the request into EXIT - including the user's wake callback and its script -, or EXIT is
+   set and it is in the rest of the pass, in the timer callback or past the loop), every step of
+   the loop thread strictly decreases [rank], and a step of any other thread increases it by at
+   most 2 (an enqueue).  Together with exit_poll_never_sleeps / loop_never_stuck (ProofsExit.v) and
+   the finiteness of the scripts this bounds the number of loop-thread steps until
+   muggle_evloop_run has returned (rank 1 = AFin).  The close dispatches of contexts that were shut
+   down, the callbacks' scripts and the timer callback are all inside the bound. *)
 From MV Require Import C14.Model C14.ProofsBase C14.ProofsWake C14.ProofsExit C14.ProofsHandover.
 
-Definition rank (s : sys) (p : pc) : nat :=
+(* ---- two small invariants of the loop thread ---- *)
+(* inside the loop evloop->tid is the loop thread; during the handling of a wake-up the pass has no
+   reported signal left *)
+Definition wake_pc (p : pc) : bool :=
+  match p with
+  | ARead | SWake | AWLock | SRel PhDrain _ | ARel PhDrain _ | AWUnlock | SWakeEnd => true
+  | _ => false
+  end.
+Definition LInv (C : config) (s : sys) : Prop :=
+  (is_loop_pc (thr s (c_loop C)) = true -> tidf s = c_loop C) /\
+  (wake_pc (thr s (c_loop C)) = true \/ (exists q, thr s (c_loop C) = Cb q /\ cbk s = false) -> psig s = false).
+
+Lemma init_linv C : LInv C init.
+Proof. split; simpl; [discriminate|]. intros [K|(q & K & _)]; discriminate. Qed.
+
+(* what the tail segments say about the two facts: the tid is untouched; if a tail ends at a wake
+   program point (ARead) the reported signal has just been taken *)
+Lemma exit_test_l C s t ns s' l : exit_test C s t ns = Some (s', l) ->
+  tidf s' = tidf s /\ wake_pc (thr s' t) = false /\ (forall q, thr s' t <> Cb q).
+Proof.
+  unfold exit_test. intros H.
+  destruct (to_exit s =? ST_EXIT); [destruct (c_bare C); [|destruct (reg s)]|];
+    inversion H; subst; clear H; nrmg; rewrite upd_same; repeat split; try reflexivity; intros q K; discriminate K.
+Qed.
+Lemma fin_pass_l C s t ns s' l : fin_pass C s t ns = Some (s', l) ->
+  tidf s' = tidf s /\ wake_pc (thr s' t) = false /\ (forall q, thr s' t = Cb q -> cbk s' = true).
+Proof.
+  unfold fin_pass. intros H. destruct (c_tmo C && c_cb_timer C).
+  - match type of H with (if is_nil (cbs ?x) then _ else _) = _ => set (s1 := x) in * end.
+    destruct (is_nil (cbs s1)).
+    + apply exit_test_l in H. destruct H as (A & B & D). repeat split; auto. intros q K. exfalso. eapply D; eauto.
+    + inversion H; subst; clear H. nrmg. rewrite upd_same. repeat split; auto.
+  - apply exit_test_l in H. destruct H as (A & B & D). repeat split; auto. intros q K. exfalso. eapply D; eauto.
+Qed.
+Lemma seg_pass_l C s t ns s' l : seg_pass C s t ns = Some (s', l) ->
+  tidf s' = tidf s /\ (wake_pc (thr s' t) = true -> psig s' = false) /\ (forall q, thr s' t = Cb q -> cbk s' = true).
+Proof.
+  unfold seg_pass. intros H.
+  destruct (pass C (hup s) (peof s) (rdy s) (rdh s) (psig s) (pn s) (todo s) ns []) as [[[[n td] r] ns'] dr].
+  destruct r as [|id|].
+  - inversion H; subst; clear H. nrmg. rewrite upd_same. repeat split; auto. intros q K; discriminate K.
+  - inversion H; subst; clear H. nrmg. rewrite upd_same. repeat split; auto; [intros K; discriminate K|intros q K; discriminate K].
+  - apply fin_pass_l in H. destruct H as (A & B & D). repeat split; auto. intros K. congruence.
+Qed.
+Lemma wake_end_l C s t ns s' l : wake_end C s t ns = Some (s', l) ->
+  tidf s' = tidf s /\ (wake_pc (thr s' t) = true -> psig s' = false) /\ (forall q, thr s' t = Cb q -> cbk s' = true).
+Proof. unfold wake_end. intros H. apply seg_pass_l in H. exact H. Qed.
+Lemma cb_end_l C s t ns s' l : cb_end C s t ns = Some (s', l) ->
+  tidf s' = tidf s /\ (wake_pc (thr s' t) = true -> psig s' = false) /\ (forall q, thr s' t = Cb q -> cbk s' = true).
+Proof.
+  unfold cb_end. intros H. destruct (cbk s); [|eapply wake_end_l; eauto].
+  apply exit_test_l in H. destruct H as (A & B & D). repeat split; auto; [intros K; congruence|intros q K; exfalso; eapply D; eauto].
+Qed.
+Lemma cb_next_l C s t k ns s' l : cb_next C s t k ns = Some (s', l) ->
+  tidf s' = tidf s /\ (wake_pc (thr s' t) = true -> psig s' = false) /\
+  (forall q, thr s' t = Cb q -> cbk s' = true \/ (cbk s' = cbk s /\ psig s' = psig s)).
+Proof.
+  unfold cb_next. intros H. destruct (S k <? length (cbs s)).
+  - inversion H; subst; clear H. nrmg. rewrite upd_same. repeat split; auto. intros K; discriminate K.
+  - apply cb_end_l in H. destruct H as (A & B & D). repeat split; auto.
+    intros q K. left. eapply D; eauto.
+Qed.
+
+Lemma step_linv C s t ch s' l : BInv C s -> LInv C s -> step C s t ch = Some (s', l) -> LInv C s'.
+Proof.
+  intros B [L1 L2] Hs.
+  destruct (Nat.eq_dec t (c_loop C)) as [e|ne].
+  2: { pose proof (step_other_thr C s t ch s' l (c_loop C) Hs ltac:(auto)) as Ep.
+       destruct (step_other_sig C s t ch s' l B ne Hs) as (_ & E1 & _).
+       assert (E2 : tidf s' = tidf s /\ cbk s' = cbk s).
+       { pose proof (b_loop _ _ B t) as Hl. clear Ep E1 L1 L2.
+         step_inv Hs; simpl in Hl; try (exfalso; apply ne; apply Hl; reflexivity);
+           try (exfalso; apply ne; apply Nat.eqb_eq; assumption); nrmg; auto. }
+       destruct E2 as [E2 E3]. unfold LInv. rewrite Ep, E1, E2, E3. split; assumption. }
+  subst t.
+  step_inv Hs.
+  all: repeat match goal with ph : phase |- _ => destruct ph end.
+  all: simpl in L1, L2.
+  (* tails *)
+  all: try (match goal with
+            | H : exit_test _ _ _ _ = Some _ |- _ => apply exit_test_l in H; destruct H as (A & Bw & D)
+            | H : fin_pass _ _ _ _ = Some _ |- _ => apply fin_pass_l in H; destruct H as (A & Bw & D)
+            end;
+            split; [intros _; rewrite A; nrmg; first [apply L1; reflexivity | reflexivity]
+                   |intros [K|(qq & K & K2)]; [congruence|first [exfalso; eapply D; eassumption | specialize (D _ K); congruence]]]; fail).
+  all: try (match goal with
+            | H : seg_pass _ _ _ _ = Some _ |- _ => apply seg_pass_l in H; destruct H as (A & Bw & D)
+            | H : wake_end _ _ _ _ = Some _ |- _ => apply wake_end_l in H; destruct H as (A & Bw & D)
+            | H : cb_end _ _ _ _ = Some _ |- _ => apply cb_end_l in H; destruct H as (A & Bw & D)
+            end;
+            split; [intros _; rewrite A; nrmg; first [apply L1; reflexivity | reflexivity]
+                   |intros [K|(qq & K & K2)]; [apply Bw; exact K|specialize (D _ K); congruence]]; fail).
+  all: try (match goal with
+            | H : cb_next _ _ _ _ _ = Some _ |- _ => apply cb_next_l in H; destruct H as (A & Bw & D)
+            end;
+            split; [intros _; rewrite A; nrmg; first [apply L1; reflexivity | reflexivity]
+                   |intros [K|(qq & K & K2)]; [apply Bw; exact K|];
+                    destruct (D _ K) as [D1|[D1 D2]]; [congruence|]; rewrite D2; nrmg; nrmh D1;
+                    apply L2; right; eexists; split; [reflexivity|congruence]]; fail).
+  (* explicit steps *)
+  all: unfold LInv; nrmg; rewrite ?upd_same; cbn [is_loop_pc wake_pc].
+  all: split.
+  all: try (intros K; first [discriminate K | reflexivity | apply L1; reflexivity]; fail).
+  all: try (intros [K|(qq & K & K2)]; first [discriminate K | apply L2; auto; fail
+                 | apply L2; right; eexists; split; [reflexivity|assumption] | reflexivity]; fail).
+Qed.
+
+Theorem linv_all C sched : LInv C (exec sys (step C) init sched).
+Proof.
+  assert (H : BInv C (exec sys (step C) init sched) /\ LInv C (exec sys (step C) init sched)).
+  { apply (inv_exec sys (step C) (fun s => BInv C s /\ LInv C s)).
+    - intros s t c s' l [B W] Hs. split; [eapply step_binv | eapply step_linv]; eauto.
+    - split; [apply init_binv | apply init_linv]. }
+  exact (proj2 H).
+Qed.
+
+
+(* ------------------------------------------------------------------ *)
+(* the rank *)
+Definition cbidx (q : spc) : nat :=
+  match q with QY k | QO k | QW k | QT k | QHL k _ | QHE k _ | QHU k | QHW k => k end.
+Definition cboff (q : spc) : nat :=
+  match q with QY _ => 10 | QO _ => 9 | QHL _ _ => 8 | QHE _ _ => 7 | QHU _ => 4 | QHW _ => 3 | QW _ => 2 | QT _ => 1 end.
+Definition cbrank (s : sys) (q : spc) : nat := 11 * (length (cbs s) - cbidx q) + cboff q.
+(* what the timer callback / the user's wake callback of this iteration may still cost *)
+Definition TS (C : config) (s : sys) : nat :=
+  if c_tmo C && c_cb_timer C then 11 * length (if c_bare C then [] else nth (tmn s) (c_cbt C) []) + 12 else 0.
+Definition WS (C : config) (s : sys) : nat :=
+  if c_cb_wake C then 11 * length (nth (wkn s) (c_cbw C) []) + 12 else 0.
+
+Definition rank (C : config) (s : sys) (p : pc) : nat :=
   let Q := 2 * length (queue s) in
   let R := 2 * length (reg s) in
   let K := 2 * length (clr s) in
   match p with
-  | SPollRet => Q + R + 20
-  | ARead => Q + R + 19
-  | SWake => Q + R + 18
-  | AWLock => Q + R + 17
-  | SRel PhDrain None => Q + R + 16
-  | ARel PhDrain _ => Q + R + 15
-  | SRel PhDrain (Some _) => Q + R + 14
-  | AWUnlock => Q + R + 12
-  | SWakeEnd => Q + R + 11
+  | SPollRet => Q + R + TS C s + WS C s + 110
+  | ARel PhClose _ => Q + R + TS C s + (if psig s then WS C s + 101 else 30)
+  | SRel PhClose _ => Q + R + TS C s + (if psig s then WS C s + 100 else 29)
+  | ARead => Q + R + TS C s + WS C s + 69
+  | SWake => Q + R + TS C s + WS C s + 68
+  | AWLock => Q + R + TS C s + WS C s + 67
+  | SRel PhDrain None => Q + R + TS C s + WS C s + 66
+  | ARel PhDrain _ => Q + R + TS C s + WS C s + 65
+  | SRel PhDrain (Some _) => Q + R + TS C s + WS C s + 64
+  | AWUnlock => Q + R + TS C s + WS C s + 62
+  | SWakeEnd => Q + R + TS C s + WS C s + 61
+  | Cb q => if cbk s then Q + R + 20 + cbrank s q else Q + R + TS C s + 40 + cbrank s q
   | ARel PhClear _ => Q + K + 10
   | SRel PhClear _ => Q + K + 9
   | AXLock => Q + 8
@@ -31,7 +168,27 @@ Definition rank (s : sys) (p : pc) : nat :=
   | _ => 0
   end.
 
-Definition ranked (p : pc) : bool := past_poll p || leaving p.
+(* on the way to an exit test that leaves *)
+Definition ranked (C : config) (s : sys) (p : pc) : bool :=
+  match p with
+  | ARead | SWake | AWLock | SRel PhDrain _ | ARel PhDrain _ | AWUnlock | SWakeEnd => true
+  | Cb _ => negb (cbk s) || Nat.eqb (to_exit s) ST_EXIT
+  | SRel PhClose None => Nat.eqb (to_exit s) ST_EXIT
+  | SPollRet | SRel PhClose (Some _) | ARel PhClose _ =>
+    Nat.eqb (to_exit s) ST_EXIT ||
+    (psig s && has_none (todo s) && match c_be C with BPoll => false | _ => true end)
+  | _ => leaving p
+  end.
+
+Lemma drop_length_le x l : length (drop x l) <= length l.
+Proof. unfold drop. induction l as [|y l IH]; simpl; [lia|]. destruct (negb (y =? x)); simpl; lia. Qed.
+Lemma drop_length_lt x l : In x l -> length (drop x l) < length l.
+Proof.
+  induction l as [|y l IH]; intros H; [destruct H|]. unfold drop. simpl.
+  destruct (Nat.eqb_spec y x) as [->|ne]; simpl.
+  - pose proof (drop_length_le x l). unfold drop in *. lia.
+  - destruct H as [H|H]; [congruence|]. specialize (IH H). unfold drop in IH. lia.
+Qed.
 
 Lemma drain_len C : c_fix_add C = true -> forall q rg lk n q' rg' lk' n' st,
   drain C q rg lk n = (q', rg', lk', n', st) -> length q' + length rg' = length q + length rg.
@@ -40,87 +197,266 @@ Proof.
   destruct H as (m & -> & -> & _ & _). rewrite !app_length. lia.
 Qed.
 
+(* ---- the tail segments ---- *)
+Lemma exit_test_rank C s t ns s' l : to_exit s = ST_EXIT -> exit_test C s t ns = Some (s', l) ->
+  ranked C s' (thr s' t) = true /\ rank C s' (thr s' t) <= 2 * length (queue s) + 2 * length (reg s) + 8.
+Proof.
+  unfold exit_test. intros E H. rewrite E in H. cbn [Nat.eqb ST_EXIT] in H.
+  destruct (c_bare C); [|destruct (reg s) as [|id r] eqn:Er];
+    inversion H; subst; clear H; rewrite thr_set_pc_same; (split; [reflexivity|]); unfold rank; nrmg; simpl; lia.
+Qed.
+
+Lemma fin_pass_rank C s t ns s' l : to_exit s = ST_EXIT -> fin_pass C s t ns = Some (s', l) ->
+  ranked C s' (thr s' t) = true /\ rank C s' (thr s' t) <= 2 * length (queue s) + 2 * length (reg s) + TS C s + 18.
+Proof.
+  unfold fin_pass, TS. intros E H.
+  destruct (c_tmo C && c_cb_timer C).
+  - match type of H with (if is_nil (cbs ?x) then _ else _) = _ => set (s1 := x) in * end.
+    destruct (is_nil (cbs s1)) eqn:En.
+    + destruct (exit_test_rank C s1 t _ s' l E H) as [A B]. split; [exact A|]. unfold s1 in B. nrmh B. lia.
+    + inversion H; subst; clear H. rewrite thr_set_pc_same. split.
+      * unfold ranked, s1. nrmg. rewrite E. rewrite Nat.eqb_refl. apply Bool.orb_true_r.
+      * unfold rank, cbrank, s1. nrmg. simpl. lia.
+  - destruct (exit_test_rank C s t _ s' l E H) as [A B]. split; [exact A|]. lia.
+Qed.
+
+Definition pass_pre (C : config) (s : sys) : Prop :=
+  to_exit s = ST_EXIT \/ (psig s = true /\ In None (todo s) /\ c_be C <> BPoll).
+
+Lemma ranked_pass_pre C s : to_exit s <> 0 ->
+  (Nat.eqb (to_exit s) ST_EXIT || (psig s && has_none (todo s) && match c_be C with BPoll => false | _ => true end)) = true ->
+  pass_pre C s.
+Proof.
+  intros _ H. apply Bool.orb_prop in H. destruct H as [H|H]; [left; apply Nat.eqb_eq; exact H|right].
+  apply andb_prop in H. destruct H as [H H3]. apply andb_prop in H. destruct H as [H1 H2].
+  split; [exact H1|]. split; [apply has_none_In; exact H2|]. intros K. rewrite K in H3. discriminate.
+Qed.
+Lemma pass_pre_ranked C s : pass_pre C s ->
+  (Nat.eqb (to_exit s) ST_EXIT || (psig s && has_none (todo s) && match c_be C with BPoll => false | _ => true end)) = true.
+Proof.
+  intros [H|(H1 & H2 & H3)]; [rewrite H; reflexivity|]. apply Bool.orb_true_iff. right.
+  rewrite H1. apply has_none_In in H2. rewrite H2. destruct (c_be C); auto; congruence.
+Qed.
+
+Lemma seg_pass_rank C s t ns s' l : pass_pre C s -> seg_pass C s t ns = Some (s', l) ->
+  ranked C s' (thr s' t) = true /\
+  rank C s' (thr s' t) <= 2 * length (queue s) + 2 * length (reg s) + TS C s + (if psig s then WS C s + 101 else 30).
+Proof.
+  intros Hp H. unfold seg_pass in H.
+  destruct (pass C (hup s) (peof s) (rdy s) (rdh s) (psig s) (pn s) (todo s) ns []) as [[[[n td] r] ns'] dr] eqn:E.
+  destruct r as [|id|].
+  - inversion H; subst; clear H. rewrite thr_set_pc_same. split; [reflexivity|].
+    apply pass_read_sg in E. destruct E as [E _]. rewrite E. unfold rank, TS, WS. nrmg. lia.
+  - inversion H; subst; clear H. rewrite thr_set_pc_same. split.
+    + unfold ranked. apply pass_pre_ranked. destruct Hp as [K|(K1 & K2 & K3)]; [left; exact K|right].
+      nrmg. split; [exact K1|]. split; [|exact K3]. rewrite K1 in E. eapply pass_close_keeps_none; eauto.
+    + unfold rank, TS, WS. nrmg. destruct (psig s); lia.
+  - assert (Ex : to_exit s = ST_EXIT).
+    { destruct Hp as [K|(K1 & K2 & K3)]; [exact K|]. exfalso. apply K3. rewrite K1 in E. eapply pass_end_none_poll; eauto. }
+    match type of H with fin_pass _ ?x _ _ = _ => set (s1 := x) in * end.
+    destruct (fin_pass_rank C s1 t _ s' l Ex H) as [A B]. split; [exact A|].
+    unfold s1, TS in B. nrmh B. unfold TS. destruct (psig s); lia.
+Qed.
+
+Lemma wake_end_rank C s t ns s' l :
+  (to_exit s = ST_EXIT \/ to_exit s = ST_WAKE) -> psig s = false -> wake_end C s t ns = Some (s', l) ->
+  ranked C s' (thr s' t) = true /\ rank C s' (thr s' t) <= 2 * length (queue s) + 2 * length (reg s) + TS C s + 30.
+Proof.
+  intros Hd Hps H. unfold wake_end in H.
+  match type of H with seg_pass _ ?x _ _ = _ => set (s1 := x) in * end.
+  assert (P1 : pass_pre C s1).
+  { left. unfold s1. nrmg. destruct Hd as [K|K]; rewrite K; reflexivity. }
+  destruct (seg_pass_rank C s1 t _ s' l P1 H) as [A B]. split; [exact A|].
+  unfold s1, TS in B. nrmh B. rewrite Hps in B. unfold TS. lia.
+Qed.
+
+Lemma cb_end_rank C s t ns s' l :
+  (to_exit s = ST_EXIT \/ to_exit s = ST_WAKE) -> (cbk s = false -> psig s = false) -> (cbk s = true -> to_exit s = ST_EXIT) ->
+  cb_end C s t ns = Some (s', l) ->
+  ranked C s' (thr s' t) = true /\
+  rank C s' (thr s' t) <= 2 * length (queue s) + 2 * length (reg s) + (if cbk s then 8 else TS C s + 30).
+Proof.
+  intros Hd Hps Hx H. unfold cb_end in H. destruct (cbk s).
+  - eapply exit_test_rank; eauto.
+  - destruct (wake_end_rank C s t _ s' l Hd (Hps eq_refl) H) as [A B]. split; [exact A|lia].
+Qed.
+
+Lemma cb_next_rank C s t k ns s' l :
+  (to_exit s = ST_EXIT \/ to_exit s = ST_WAKE) -> (cbk s = false -> psig s = false) -> (cbk s = true -> to_exit s = ST_EXIT) ->
+  cb_next C s t k ns = Some (s', l) ->
+  ranked C s' (thr s' t) = true /\
+  rank C s' (thr s' t) <= 2 * length (queue s) + 2 * length (reg s) + (if cbk s then 20 else TS C s + 40) + 11 * (length (cbs s) - k).
+Proof.
+  intros Hd Hps Hx H. unfold cb_next in H. destruct (S k <? length (cbs s)) eqn:El.
+  - inversion H; subst; clear H. rewrite thr_set_pc_same. apply Nat.ltb_lt in El. split.
+    + unfold ranked. nrmg. destruct (cbk s); [rewrite (Hx eq_refl); reflexivity|reflexivity].
+    + unfold rank, cbrank, TS. nrmg. simpl cbidx. simpl cboff. destruct (cbk s); lia.
+  - destruct (cb_end_rank C s t _ s' l Hd Hps Hx H) as [A B]. split; [exact A|]. destruct (cbk s); lia.
+Qed.
+
 Theorem loop_step_decreases_rank C s ch s' l :
   c_fix_exit C = true -> c_fix_add C = true ->
-  BInv C s -> EInv C s -> HInv C s ->
-  to_exit s <> 0 -> ranked (thr s (c_loop C)) = true -> thr s (c_loop C) <> Done ->
+  BInv C s -> EInv C s -> HInv C s -> LInv C s ->
+  to_exit s <> 0 -> ranked C s (thr s (c_loop C)) = true -> thr s (c_loop C) <> Done ->
   step C s (c_loop C) ch = Some (s', l) ->
-  ranked (thr s' (c_loop C)) = true /\
-  rank s' (thr s' (c_loop C)) < rank s (thr s (c_loop C)).
+  ranked C s' (thr s' (c_loop C)) = true /\
+  rank C s' (thr s' (c_loop C)) < rank C s (thr s (c_loop C)).
 Proof.
-  intros Hfx Hfa B [Hd _] H Hne Hr Hnd Hs. pose proof (h_head _ _ H) as Hh.
+  intros Hfx Hfa B [Hd _] H [L1 L2] Hne Hr Hnd Hs. pose proof (h_head _ _ H) as Hh.
+  assert (Hd2 : to_exit s = ST_EXIT \/ to_exit s = ST_WAKE) by (destruct Hd as [K|K]; [contradiction|exact K]).
   step_inv Hs.
-  all: simpl in Hr, Hh; try discriminate Hr.
-  all: repeat match goal with ph : phase |- _ => destruct ph end; simpl in Hr, Hh; try discriminate Hr.
+  all: repeat match goal with ph : phase |- _ => destruct ph end.
+  all: cbn [ranked leaving] in Hr; try discriminate Hr.
+  all: simpl in Hh, L1, L2.
+  (* tails *)
+  all: try (match goal with H0 : cb_next _ ?s1 _ ?k0 _ = Some _ |- _ =>
+              edestruct (fun a b c => cb_next_rank C s1 _ k0 _ _ _ a b c H0) as [A Bx];
+              [ nrmg; first [exact Hd2 | left; reflexivity | right; reflexivity]
+              | nrmg; intros Kc; apply L2; right; eexists; split; [reflexivity|exact Kc]
+              | nrmg; intros Kc; rewrite Kc in Hr; first [reflexivity | apply Nat.eqb_eq; exact Hr]
+              | split; [exact A|]; eapply Nat.le_lt_trans; [exact Bx|]; unfold rank, cbrank, TS, WS; nrmg; simpl cbidx; simpl cboff;
+                destruct (cbk s); lia ] end; fail).
+  all: try (match goal with H0 : cb_end _ ?s1 _ _ = Some _ |- _ =>
+              edestruct (fun a b c => cb_end_rank C s1 _ _ _ _ a b c H0) as [A Bx];
+              [ nrmg; exact Hd2
+              | nrmg; intros Kc; apply L2; right; eexists; split; [reflexivity|exact Kc]
+              | nrmg; intros Kc; rewrite Kc in Hr; apply Nat.eqb_eq; exact Hr
+              | split; [exact A|]; eapply Nat.le_lt_trans; [exact Bx|]; unfold rank, cbrank, TS, WS; nrmg; simpl cbidx; simpl cboff;
+                destruct (cbk s); lia ] end; fail).
+  all: try (match goal with H0 : wake_end _ ?s1 _ _ = Some _ |- _ =>
+              edestruct (fun a b => wake_end_rank C s1 _ _ _ _ a b H0) as [A Bx];
+              [ nrmg; exact Hd2
+              | nrmg; apply L2; left; reflexivity
+              | split; [exact A|]; eapply Nat.le_lt_trans; [exact Bx|]; unfold rank, TS, WS; nrmg; lia ] end; fail).
+  all: try (match goal with H0 : seg_pass _ ?s1 _ _ = Some _ |- _ =>
+              edestruct (fun a => seg_pass_rank C s1 _ _ _ _ a H0) as [A Bx];
+              [ apply ranked_pass_pre; [exact Hne|exact Hr]
+              | split; [exact A|]; eapply Nat.le_lt_trans; [exact Bx|]; unfold rank, TS, WS; nrmg;
+                try (match goal with |- context [drop ?x (reg ?z)] =>
+                       pose proof (drop_length_lt x (reg z) (proj1 (h_closing _ _ H x ltac:(match goal with E : thr _ _ = _ |- _ => rewrite E; reflexivity end)))) end);
+                destruct (psig s); lia ] end; fail).
+  all: try (match goal with H0 : fin_pass _ ?s1 _ _ = Some _ |- _ =>
+              edestruct (fun a => fin_pass_rank C s1 _ _ _ _ a H0) as [A Bx];
+              [ nrmg; first [ apply Nat.eqb_eq; exact Hr
+                            | destruct Hd2 as [K|K]; rewrite K; reflexivity
+                            | (* after a close, poll back-end: the pass is over only with EXIT *)
+                              apply Bool.orb_prop in Hr; destruct Hr as [Hr|Hr]; [apply Nat.eqb_eq; exact Hr|];
+                              exfalso; unfold poll_done in *; destruct (c_be C); try discriminate;
+                              rewrite Bool.andb_false_r in Hr; discriminate Hr ]
+              | split; [exact A|]; eapply Nat.le_lt_trans; [exact Bx|]; unfold rank, TS, WS; nrmg;
+                try (match goal with |- context [drop ?x (reg ?z)] =>
+                       pose proof (drop_length_lt x (reg z) (proj1 (h_closing _ _ H x ltac:(match goal with E : thr _ _ = _ |- _ => rewrite E; reflexivity end)))) end);
+                destruct (psig s); lia ] end; fail).
+  (* explicit steps *)
   all: rewrite ?thr_set_pc_same.
-  all: split; [try reflexivity|].
   all: repeat match goal with
-       | E : drain _ _ _ _ _ = _ |- _ => apply (drain_len C Hfa) in E; simpl in E
+       | E : drain _ _ _ _ _ = _ |- _ => apply (drain_len C Hfa) in E; nrmh E
        end.
   all: try (destruct Hh as [r0 Hq]; rewrite Hq in *; simpl tl in * ).
-  all: unfold rank, set_pc; simpl.
-  all: repeat match goal with Eq : queue _ = _ |- _ => rewrite Eq in *
-                            | Eq : reg _ = _ |- _ => rewrite Eq in *
-                            | Eq : clr _ = _ |- _ => simpl in Eq; rewrite Eq in * end; simpl in *.
-  all: try lia.
-  all: exfalso; unfold ST_EXIT, ST_WAKE in *;
-    match goal with Hb : (_ =? 1) = false |- _ =>
-      destruct (Nat.eqb_spec (to_exit s) 2); [discriminate Hb|apply Nat.eqb_neq in Hb; lia] end.
+  all: split; [unfold ranked; nrmg; cbn [leaving negb orb]; try reflexivity|].
+  all: try (unfold rank, TS, WS, cbrank; nrmg; simpl cbidx; simpl cboff;
+            repeat match goal with Eq : queue _ = _ |- _ => rewrite Eq in *
+                                 | Eq : reg _ = _ |- _ => rewrite Eq in *
+                                 | Eq : clr _ = _ |- _ => nrmh Eq; rewrite Eq in * end;
+            rewrite ?app_length; simpl length in *; destruct (cbk s); destruct (psig s); lia).
+  all: try exact Hr.
+  all: try (apply Bool.orb_true_r).
+  all: try (exfalso; assert (Kt : tidf s = c_loop C) by (apply L1; reflexivity);
+            match goal with Hb : (tidf _ =? _) = false |- _ => rewrite Kt, Nat.eqb_refl in Hb; discriminate Hb end).
+  unfold rank, TS, WS, cbrank. nrmg. simpl cbidx. simpl cboff.
+  match goal with Hb : c_cb_wake C = true |- _ => rewrite Hb end. lia.
 Qed.
 
 (* steps of the other threads: only an enqueue changes the rank, by 2 *)
 Theorem other_step_rank C s t ch s' l :
   BInv C s -> t <> c_loop C -> step C s t ch = Some (s', l) ->
   thr s' (c_loop C) = thr s (c_loop C) /\
-  rank s' (thr s (c_loop C)) <= rank s (thr s (c_loop C)) + 2.
+  rank C s' (thr s (c_loop C)) <= rank C s (thr s (c_loop C)) + 2.
 Proof.
-  intros B Hne Hs. pose proof (b_loop _ _ B t) as Hl.
-  step_inv Hs.
-  all: simpl in Hl; try (exfalso; apply Hne; apply Hl; reflexivity).
-  all: split; [unfold set_pc; simpl; apply upd_other; auto|].
-  all: unfold rank, set_pc; simpl; rewrite ?app_length; simpl;
-       destruct (thr s (c_loop C)) as [| | | | | | | | | | | | | | |ph [i|]|ph i| | | | | | |]; try destruct ph; lia.
+  intros B Hne Hs. split; [eapply step_other_thr; eauto|].
+  assert (E : reg s' = reg s /\ clr s' = clr s /\ psig s' = psig s /\ cbk s' = cbk s /\ cbs s' = cbs s /\ tmn s' = tmn s /\
+              wkn s' = wkn s /\ (queue s' = queue s \/ exists id, queue s' = queue s ++ [id])).
+  { pose proof (b_loop _ _ B t) as Hl.
+    step_inv Hs; simpl in Hl; try (exfalso; apply Hne; apply Hl; reflexivity);
+      try (exfalso; apply Hne; apply Nat.eqb_eq; assumption); nrmg; repeat split; eauto. }
+  destruct E as (E1 & E2 & E3 & E4 & E5 & E6 & E7 & E8).
+  unfold rank, TS, WS, cbrank. rewrite E1, E2, E3, E4, E5, E6, E7.
+  assert (Hq : length (queue s') <= length (queue s) + 1).
+  { destruct E8 as [->|[id ->]]; [lia|rewrite app_length; simpl; lia]. }
+  destruct (thr s (c_loop C)); try lia;
+    repeat match goal with ph : phase |- _ => destruct ph | o : option nat |- _ => destruct o end; try lia;
+    destruct (cbk s); destruct (psig s); lia.
 Qed.
 
 (* the loop thread finishes only through the return of muggle_evloop_run *)
 Definition RInv (C : config) (s : sys) : Prop :=
   thr s (c_loop C) = AFin \/ thr s (c_loop C) = Done -> returned s = true.
 
-Lemma step_rinv C s t ch s' l : RInv C s -> step C s t ch = Some (s', l) -> RInv C s'.
+Lemma step_rinv C s t ch s' l : BInv C s -> RInv C s -> step C s t ch = Some (s', l) -> RInv C s'.
 Proof.
-  intros Hr Hs. unfold RInv in *.
+  intros B Hr Hs. unfold RInv in *.
+  destruct (Nat.eq_dec t (c_loop C)) as [e|ne].
+  2: { rewrite (step_other_thr C s t ch s' l (c_loop C) Hs) by auto. intros K. specialize (Hr K).
+       destruct (step_other_k C s t ch s' l B ne Hs) as (_ & _ & _ & _ & E & _). congruence. }
+  subst t.
   step_inv Hs.
-  all: unfold set_pc; simpl; unfold upd.
-  all: destruct (Nat.eqb_spec (c_loop C) t) as [e|ne];
-    [ rewrite e in *; match goal with E : thr _ _ = _ |- _ => rewrite E in Hr end | try exact Hr ].
-  all: try (intros [X|X]; discriminate X).
+  all: repeat match goal with ph : phase |- _ => destruct ph end.
+  (* tails: they end at AFin only through the bare loop's return *)
+  all: try (match goal with
+            | H : exit_test _ _ _ _ = Some _ |- _ => pose proof (exit_test_k _ _ _ _ _ _ H) as KT
+            | H : fin_pass _ _ _ _ = Some _ |- _ => pose proof (fin_pass_k _ _ _ _ _ _ H) as KT
+            | H : seg_pass _ _ _ _ = Some _ |- _ => pose proof (seg_pass_k _ _ _ _ _ _ H) as KT
+            | H : wake_end _ _ _ _ = Some _ |- _ => pose proof (wake_end_k _ _ _ _ _ _ H) as KT
+            | H : cb_end _ _ _ _ = Some _ |- _ => pose proof (cb_end_k _ _ _ _ _ _ H) as KT
+            | H : cb_next _ _ _ _ _ = Some _ |- _ => pose proof (cb_next_k _ _ _ _ _ _ _ H) as KT
+            end;
+            destruct KT as (_ & T2 & T3); intros K;
+            destruct T3 as [(_ & [T|[T|[[i0 T]|[k0 T]]]])|[(_ & i0 & T & _)|[(_ & T & _)|(T & Tb & Tr)]]];
+            first [ exact Tr | exfalso; destruct K as [K|K]; congruence ]; fail).
+  (* explicit steps *)
+  all: nrmg; rewrite ?upd_same.
+  all: try (intros [K|K]; discriminate K).
   all: try (intros _; reflexivity).
-  all: try (intros _; apply Hr; auto; fail).
-  all: try (intros X; apply Hr; exact X).
-  exfalso. match goal with Hb : (?a =? ?a) = false |- _ => rewrite Nat.eqb_refl in Hb; discriminate Hb end.
+  all: try (intros _; apply Hr; left; assumption).
+  - exfalso. match goal with Hb : (?a =? ?a) = false |- _ => rewrite Nat.eqb_refl in Hb; discriminate Hb end.
+  - intros _. apply Hr. left. reflexivity.
 Qed.
 
 Lemma rinv_all C sched : RInv C (exec sys (step C) init sched).
-Proof. apply inv_exec; [|intros [X|X]; discriminate X]. intros; eapply step_rinv; eauto. Qed.
+Proof.
+  assert (H : BInv C (exec sys (step C) init sched) /\ RInv C (exec sys (step C) init sched)).
+  { apply (inv_exec sys (step C) (fun s => BInv C s /\ RInv C s)).
+    - intros s t c s' l [B W] Hs. split; [eapply step_binv | eapply step_rinv]; eauto.
+    - split; [apply init_binv | intros [X|X]; discriminate X]. }
+  exact (proj2 H).
+Qed.
 
 (* for every schedule: the hypotheses of the two theorems hold in every reachable state *)
 Theorem exit_variant_all C sched : c_fix_exit C = true -> c_fix_add C = true ->
   let s := exec sys (step C) init sched in
-  (forall ch s' l, to_exit s <> 0 -> ranked (thr s (c_loop C)) = true -> thr s (c_loop C) <> Done ->
+  (forall ch s' l, to_exit s <> 0 -> ranked C s (thr s (c_loop C)) = true -> thr s (c_loop C) <> Done ->
      step C s (c_loop C) ch = Some (s', l) ->
-     ranked (thr s' (c_loop C)) = true /\ rank s' (thr s' (c_loop C)) < rank s (thr s (c_loop C))) /\
+     ranked C s' (thr s' (c_loop C)) = true /\ rank C s' (thr s' (c_loop C)) < rank C s (thr s (c_loop C))) /\
   (forall t ch s' l, t <> c_loop C -> step C s t ch = Some (s', l) ->
-     thr s' (c_loop C) = thr s (c_loop C) /\ rank s' (thr s (c_loop C)) <= rank s (thr s (c_loop C)) + 2) /\
-  (rank s (thr s (c_loop C)) = 1 -> returned s = true).
+     thr s' (c_loop C) = thr s (c_loop C) /\ rank C s' (thr s (c_loop C)) <= rank C s (thr s (c_loop C)) + 2) /\
+  (rank C s (thr s (c_loop C)) = 1 -> returned s = true).
 Proof.
   intros Hfx Hfa s. pose proof (binv_all C sched) as B. pose proof (einv_all C sched Hfx) as E.
-  pose proof (hinv_all C sched Hfa) as H. pose proof (kinv_all C sched) as K. fold s in B, E, H, K.
+  pose proof (hinv_all C sched Hfa) as H. pose proof (linv_all C sched) as L. fold s in B, E, H, L.
   split; [|split].
   - intros. eapply loop_step_decreases_rank; eauto.
   - intros. eapply other_step_rank; eauto.
-  - intros Hr1. destruct K as [Hk Hrt].
-    destruct (thr s (c_loop C)) as [| | | | | | | | | | | | | | |ph [i|]|ph i| | | | | | |] eqn:EL;
-      try destruct ph; simpl in Hr1; try lia.
-    apply (rinv_all C sched). left. exact EL.
+  - intros Hr1. apply (rinv_all C sched). fold s. left.
+    unfold rank, cbrank in Hr1. destruct (thr s (c_loop C)); try reflexivity; try lia;
+      repeat match goal with ph : phase |- _ => destruct ph | o : option nat |- _ => destruct o | q : spc |- _ => destruct q end;
+      simpl in Hr1; destruct (cbk s); destruct (psig s); lia.
 Qed.
 
+(* non-vacuity: shutdown and exit in the same iteration; at the end of on_wake the loop is on its
+   way out and the rank bounds what is left (wake callback script, clear of the flagged context,
+   exit callback, return) *)
+Example variant_example :
+  let C := cfg_shut_exit BEpoll in
+  let s := exec sys (step C) init (repeat (0, 0) 20 ++ repeat (1, 0) 9) in
+  thr s 1 = AWUnlock /\ to_exit s <> 0 /\ ranked C s (thr s 1) = true /\ rank C s (thr s 1) = 87.
+Proof. vm_compute. repeat split; try reflexivity; discriminate. Qed.
